@@ -846,4 +846,104 @@ example : (∀ x y : Int, (decide (x ≤ y) || decide (y ≤ x)) = true) ∧
   · intro x y z; simp only [decide_eq_true_eq]; omega
   · intro x y; simp only [decide_eq_true_eq]; omega
 
+/-! ## round 3b: re-entrancy - a comparator that itself calls qsort
+
+In C a comparator may call qsort (rows ordered by their sorted contents).  The
+model has no state, so a call made from inside a comparator is an independent
+call; what has to be said is that such a comparator is a pure function of its two
+arguments WHATEVER pivots the inner calls draw (i.e. in whatever state `rand()` is
+at that moment: `pick` chooses arbitrary pivot streams per call), and that the
+outer call then does what the property says.  That the real code behaves like
+this (no shared static between two calls in progress) is what the ops `qsn` /
+`bsn` of the correspondence check. -/
+
+/-- the comparator "compare two rows by a function `f` of their SORTED key
+sequences", the sorting done by nested calls of the model's qsort with the pivot
+streams `pick a b` (a fault of a nested call, which never happens, would give 0) -/
+def nestedCmp {β : Type} (f : List Int → List Int → Int) (key : β → Int) (icmp : β → β → Int)
+    (pick : List β → List β → List Int × List Int) (a b : List β) : Int :=
+  match qsort icmp (pick a b).1 a, qsort icmp (pick a b).2 b with
+  | some (oa, _), some (ob, _) => f (oa.map key) (ob.map key)
+  | _, _ => 0
+
+/-- … is, for EVERY choice of inner pivot streams, the list function "f of the
+merge-sorted keys" (right-hand side without any model function) -/
+theorem nested_comparator_is_pure {β : Type} (f : List Int → List Int → Int) (key : β → Int) (icmp : β → β → Int)
+    (hk : ∀ x y, (icmp x y < 0 ↔ key x < key y) ∧ (0 < icmp x y ↔ key y < key x))
+    (pick : List β → List β → List Int × List Int) (a b : List β) :
+    nestedCmp f key icmp pick a b =
+      f ((a.map key).mergeSort fun x y => decide (x ≤ y)) ((b.map key).mergeSort fun x y => decide (x ≤ y)) := by
+  obtain ⟨oa, ra, ha, ea⟩ := qsort_keys_unique key icmp hk (pick a b).1 a
+  obtain ⟨ob, rb, hb, eb⟩ := qsort_keys_unique key icmp hk (pick a b).2 b
+  unfold nestedCmp
+  rw [ha, hb]
+  simp only [ea, eb]
+
+/-- qsort whose comparator calls qsort: for every outer pivot stream, every choice
+of inner pivot streams and every `f` that is a consistent order on sorted key
+sequences, the outer call terminates without fault and leaves a permutation of the
+rows ordered by "f of the sorted contents" - the same statement as for a plain
+comparator; the nested calls cannot be seen. -/
+theorem qsort_nested_comparator {β : Type} (f : List Int → List Int → Int) (key : β → Int) (icmp : β → β → Int)
+    (hk : ∀ x y, (icmp x y < 0 ↔ key x < key y) ∧ (0 < icmp x y ↔ key y < key x))
+    (hf : Consistent fun a b : List β =>
+      f ((a.map key).mergeSort fun x y => decide (x ≤ y)) ((b.map key).mergeSort fun x y => decide (x ≤ y)))
+    (pick : List β → List β → List Int × List Int) (rs : List Int) (rows : List (List β)) :
+    ∃ out rs', qsort (nestedCmp f key icmp pick) rs rows = some (out, rs') ∧ out.Perm rows ∧
+      Sorted (fun a b : List β =>
+        f ((a.map key).mergeSort fun x y => decide (x ≤ y)) ((b.map key).mergeSort fun x y => decide (x ≤ y))) out := by
+  have he : nestedCmp f key icmp pick = fun a b : List β =>
+      f ((a.map key).mergeSort fun x y => decide (x ≤ y)) ((b.map key).mergeSort fun x y => decide (x ≤ y)) := by
+    funext a b; exact nested_comparator_is_pure f key icmp hk pick a b
+  rw [he]
+  exact qsort_sorted _ hf rs rows
+
+/-- two different choices of inner pivots: the same outer result -/
+theorem qsort_nested_pivot_independent {β : Type} (f : List Int → List Int → Int) (key : β → Int) (icmp : β → β → Int)
+    (hk : ∀ x y, (icmp x y < 0 ↔ key x < key y) ∧ (0 < icmp x y ↔ key y < key x))
+    (pick₁ pick₂ : List β → List β → List Int × List Int) (rs : List Int) (rows : List (List β)) :
+    qsort (nestedCmp f key icmp pick₁) rs rows = qsort (nestedCmp f key icmp pick₂) rs rows := by
+  have he : nestedCmp f key icmp pick₁ = nestedCmp f key icmp pick₂ := by
+    funext a b
+    rw [nested_comparator_is_pure f key icmp hk pick₁ a b, nested_comparator_is_pure f key icmp hk pick₂ a b]
+  rw [he]
+
+-- the hypotheses are satisfiable: rows of integers ordered by their minimum (= head of the sorted row)
+example : Consistent fun a b : List Int =>
+    (fun x y : List Int => x.headD 0 - y.headD 0) ((a.map id).mergeSort fun x y => decide (x ≤ y)) ((b.map id).mergeSort fun x y => decide (x ≤ y)) :=
+  ⟨by intro a b; simp only []; omega, by intro a b c; simp only []; omega⟩
+-- a run: rows ordered by their minimum, the minimum found by a nested qsort with other pivots than the outer call
+example : (qsort (nestedCmp (fun x y => x.headD 0 - y.headD 0) id (fun a b : Int => a - b) (fun _ _ => ([2, 0, 1], [1, 1, 0])))
+    [3, 0, 1, 2] [[5, 9, 7, 8, 6], [3, 1, 2, 4, 1], [9, 9, 2, 9, 9], [7, 6, 5, 4, 3], [8, 8, 8, 8, 0]]).map (·.1) =
+    some [[8, 8, 8, 8, 0], [3, 1, 2, 4, 1], [9, 9, 2, 9, 9], [7, 6, 5, 4, 3], [5, 9, 7, 8, 6]] := by decide
+
+/-! ## round 3b: the period of rand.c's generator (open item of round 3)
+
+`x ↦ ((x·a + c) mod 2^32) mod m` is not a bijection of `[0, m)`, so the sequence has a
+tail and a short cycle.  For the state the library starts from (and for `srand(1)`,
+`srand(0)`) both are determined here by kernel evaluation; an exhaustive walk of all
+204 814 687 states (scratch program, recorded in the notes, not a theorem) finds 15
+cycles with 80 816 cyclic states in total, the longest of length 34 436. -/
+
+/-- `n` calls of `rand()`: the state afterwards -/
+def randIter : Nat → Nat → Nat
+  | 0, x => x
+  | n + 1, x => randIter n (randSeed x)
+
+/-- from the initial state, after 8269 calls the sequence of `rand()` repeats with
+period (dividing) 34436; same cycle after `srand(1)` (462 calls) and `srand(0)` (2919 calls) -/
+theorem rand_eventually_periodic :
+    randIter 34436 (randIter 8269 randInit) = randIter 8269 randInit ∧
+    randIter 34436 (randIter 462 1) = randIter 462 1 ∧
+    randIter 34436 (randIter 2919 0) = randIter 2919 0 := by
+  refine ⟨?_, ?_, ?_⟩ <;> decide +kernel
+
+/-- … and 34436 = 2·2·8609 is the exact period: its maximal proper divisors 17218 = 34436/2 and
+4 = 34436/8609 are not periods (nor is 8609), and the least period divides every period -/
+theorem rand_period_exact :
+    randIter 17218 (randIter 8269 randInit) ≠ randIter 8269 randInit ∧
+    randIter 8609 (randIter 8269 randInit) ≠ randIter 8269 randInit ∧
+    randIter 4 (randIter 8269 randInit) ≠ randIter 8269 randInit := by
+  refine ⟨?_, ?_, ?_⟩ <;> decide +kernel
+
 end Igris.C11
